@@ -39,9 +39,12 @@ theorem setup_alOK (cfg : Cfg) : ∀ fuel, AlOK cfg (setup cfg fuel) := by
       | error => rw [hres] at h; simp [Res.st?] at h; subst h; exact ha
       | found d reason =>
         rw [hres] at h
-        obtain ⟨hc, _⟩ := resolve_spec cfg.db cfg.path cfg.keep s.already ha n ver vexpr depth _ _ _ _ hres
+        obtain ⟨hc, hname⟩ := resolve_spec cfg.db cfg.path cfg.keep s.already ha n ver vexpr depth _ _ _ _ hres
+        try simp only at h
+        obtain ⟨hc, hname⟩ := pickDecl_spec cfg.db s.cache d _ hc hname
+        revert h hc hname; generalize pickDecl cfg.db s.cache d = d; intro h hc hname
         exact install_alOK cfg (setup cfg k) ih depth noRec vro d reason hc _ s'
-          (register_already cfg depth d reason s ha hc) h
+          (register_already cfg depth d reason (s.afterResolve cfg depth vro n ver vexpr) ha hc) h
     | false =>
       rw [setup_succ_false] at h
       cases hsp : setupProd cfg.db s.env n with
@@ -49,7 +52,7 @@ theorem setup_alOK (cfg : Cfg) : ∀ fuel, AlOK cfg (setup cfg fuel) := by
       | some d =>
         rw [hsp] at h
         exact acts_already cfg (setup cfg k) ih false depth noRec vro d _
-          ⟨{ s.env with dirs := aunset s.env.dirs d.name, recs := aunset s.env.recs d.name }, s.aliases, s.unaliased, s.already⟩
+          ⟨{ s.env with dirs := aunset s.env.dirs d.name, recs := aunset s.env.recs d.name }, s.aliases, s.unaliased, s.already, s.cache⟩
           s' ha h
 
 /-! ### invariants indexed by the subjects of requests -/
@@ -100,12 +103,12 @@ theorem acts_subj (cfg : Cfg) (S : Nat → Name → Prop) (P : Env → Prop) (hc
           have h1 : AlreadyOK cfg.db s1.already := hal _ _ _ _ _ _ _ _ _ ha (by rw [hr]; rfl)
           split at h
           · cases h
-          · exact ih hl' ⟨s.env, s.aliases, s.unaliased, s1.already⟩ s' h1 hp h
+          · exact ih hl' ⟨s.env, s.aliases, s.unaliased, s1.already, s1.cache⟩ s' h1 hp h
         · rename_i s1 hr
           have h1 : AlreadyOK cfg.db s1.already := hal _ _ _ _ _ _ _ _ _ ha (by rw [hr]; rfl)
           split at h
           · cases h
-          · exact ih hl' ⟨s.env, s.aliases, s.unaliased, s1.already⟩ s' h1 hp h
+          · exact ih hl' ⟨s.env, s.aliases, s.unaliased, s1.already, s1.cache⟩ s' h1 hp h
     · have hnd : ∀ n o j v x t kl, a ≠ .dep n o j v x t kl := fun n o j v x t kl e => hdep ⟨n, o, j, v, x, t, kl, e⟩
       rw [acts_cons_nondep rec cfg fwd k noRec vro d a rest s hnd] at h
       exact ih hl' _ s' (by simpa using ha) (hP.apply fwd k d a s hc (hl a (List.mem_cons_self)) hS hp) h
@@ -153,8 +156,11 @@ theorem setup_subjInv (cfg : Cfg) (S : Nat → Name → Prop) (P : Env → Prop)
       | found d reason =>
         rw [hres] at h
         obtain ⟨hc, hname⟩ := resolve_spec cfg.db cfg.path cfg.keep s.already ha n ver vexpr k _ _ _ _ hres
+        try simp only at h
+        obtain ⟨hc, hname⟩ := pickDecl_spec cfg.db s.cache d _ hc hname
+        revert h hc hname; generalize pickDecl cfg.db s.cache d = d; intro h hc hname
         refine install_subj cfg S P hcl hP (setup cfg f) (setup_alOK cfg f) ih k noRec vro d reason hc
-          (by rw [hname]; exact hS) ?_ _ s' (register_already cfg k d reason s ha hc)
+          (by rw [hname]; exact hS) ?_ _ s' (register_already cfg k d reason (s.afterResolve cfg k vro n ver vexpr) ha hc)
           (by rw [register_env]; exact hp) h
         intro s0 s1 hr hp0
         rcases hr with hr | hr
@@ -179,7 +185,7 @@ theorem setup_subjInv (cfg : Cfg) (S : Nat → Name → Prop) (P : Env → Prop)
         have hS' : S k d.name := by rw [hname]; exact hS
         exact acts_subj cfg S P hcl hP (setup cfg f) (setup_alOK cfg f) ih false k noRec vro d hc hS' _
           (fun _ hm => hm)
-          ⟨{ s.env with dirs := aunset s.env.dirs d.name, recs := aunset s.env.recs d.name }, s.aliases, s.unaliased, s.already⟩
+          ⟨{ s.env with dirs := aunset s.env.dirs d.name, recs := aunset s.env.recs d.name }, s.aliases, s.unaliased, s.already, s.cache⟩
           s' ha (hP.unrec k d s.env hc hS' hp) h
 
 end EupsModel.Setup
